@@ -403,7 +403,6 @@ func freshMap(v ssa.Value, depth int) (string, bool) {
 	return "a value of unknown origin", false
 }
 
-
 // isLoadError: the error value is result #1 of a call to Engine.Load (through phis).
 func isLoadError(v ssa.Value, loadFn *types.Func) bool {
 	seen := map[ssa.Value]bool{}
